@@ -155,12 +155,12 @@ check("C06", "exploration",
       "DESIGN.md §5 C06")
 
 check("C05", "exploration",
-      "runtime closure monitor over real transfers: random git-built DAGs are fetched/pushed through 9 fetch and 3 push transports (in-process local, dulwich TCP and WSGI-HTTP servers on loopback with dulwich and C git clients, C git upload-pack/receive-pack with dulwich clients, depth-limited + deepen); receiver closure, byte identity and git fsck are checked with C git, the wire pack is captured and decoded by an independent pack reader for minimality",
+      "runtime closure monitor over real transfers: random git-built DAGs are fetched/pushed through 9 fetch and 3 push transports (in-process local, dulwich TCP and WSGI-HTTP servers on loopback with dulwich and C git clients, C git upload-pack/receive-pack with dulwich clients, depth-limited + deepen); receiver closure, byte identity and git fsck are checked with C git, the wire pack is captured and decoded by an independent pack reader for minimality; plus a scripted upload-pack client (whole conversation written up front, reply decoded with the independent pkt-line/side-band/pack readers) and hostile wants for unadvertised objects",
       "360 (thorough 3600) fetches and 90 (900) pushes over DAGs with merges, octopus merges, several roots, shared blobs/subtrees, gitlinks (also "
       "to own commits), symlinks, annotated tags of commits/trees/blobs/tags x receiver pre-state {empty, ancestor-closed partial} x wants {all, "
       "some, one}. O1 closure of transferred refs present + git fsck --full --strict; O2 identical (type, bytes); O3 wire pack ids within "
       "closure(wants) + auto-followed tag chains and within closure(advertised); O4 reported refs equal the sender's.",
-      "closures computed by git rev-list --objects on the sender; gitlink targets excluded; a dulwich server refusing a client without thin-pack is a refused configuration; capability subsets of a scripted upload-pack client are not yet enumerated",
+      "closures computed by git rev-list --objects on the sender; gitlink targets excluded; a dulwich server refusing a client without thin-pack/ofs-delta/side-band-64k is a refused configuration, so the scripted upload-pack client enumerates the optional capabilities only (multi_ack none/multi_ack/detailed x no-done x include-tag x no-progress); ACK ordering beyond 'only ids that were sent' is counted, not judged",
       "DESIGN.md §5 C05")
 
 check("C04", "fault_enumeration",
